@@ -77,6 +77,12 @@ theorem rule_block_roundtrip (keep : Num → Bool) (c : Cfg) (b : Block) (h : Bl
 theorem import_export_structure (c : Cfg) (e : Engine) (h : WellFormed e) :
     fllImport (fllExport c e) = .ok (canon c e) := import_export (keepHeight c) c e h
 
+/-- the printer of the current tree is stable for *every* number: 1 is never printed, and a printed height /
+    weight is printed again after it was read back – so `export_import_export` needs no hypothesis on heights -/
+theorem current_printer_stable (c : Cfg) (h0 : 0 ≤ c.tol) :
+    keepHeight c one = false ∧ ∀ h, keepHeight c h = true → keepHeight c (rnd c.d h) = true :=
+  keepHeight_stable c h0
+
 /-- export → import → export reproduces the text, for every printable engine -/
 theorem export_import_export (c : Cfg) (h0 : 0 ≤ c.tol) (e : Engine) (hp : Printable e) :
     (fllImport (fllExport c e)).map (fllExport c) = .ok (fllExport c e) := by
